@@ -5,10 +5,16 @@ from gambatools.dfa import DFA
 from gambatools.nfa import NFA
 
 
+def fresh(x):
+    """An equal string that is a different object (as the names in a parsed text are): equal names must be compared with ==, never with `is`.
+    One-character strings are shared by the interpreter anyway."""
+    return (x + "\x00")[:-1] if isinstance(x, str) else x
+
+
 def mk_dfa(spec, check=True):
     delta = {}
     for p, a, q in spec["d"]:
-        delta[p, a] = q
+        delta[fresh(p), fresh(a)] = fresh(q)
     return DFA(set(spec["Q"]), set(spec["S"]), delta, spec["q0"], set(spec["F"]), check_validity=check)
 
 
@@ -26,7 +32,7 @@ def mk_nfa(spec):
             for a in list(spec["S"]) + [eps]:
                 delta[q, a] = set()
     for p, a, q in spec["d"]:
-        delta[p, a].add(q)
+        delta[fresh(p), fresh(a)].add(fresh(q))
     return NFA(set(spec["Q"]), set(spec["S"]), delta, spec["q0"], set(spec["F"]), eps)
 
 
